@@ -20,7 +20,7 @@ LEVEL = "fault_enumeration"
 SHARDS = {"quick": 16, "thorough": 16}
 MUST = ["cut.cases", "kind.bytes", "kind.bytesio", "kind.file", "kind.realfile", "kind.shortfile", "kind.socket_closed",
         "kind.socketpair_closed", "empty.cases", "random.cases", "via_definition.cases", "cut.in_header", "cut.in_body",
-        "cut.on_border", "progress.cases", "big.maxsize_cases", "big.beyond20MB_cases"]
+        "cut.on_border", "progress.cases", "big.maxsize_cases", "big.beyond20MB_cases", "cli.truncated_runs"]
 RULE = ("fault = end of data at byte offset c of a valid stream; enumerated: every c in 0..len for 6 base streams "
         "(1-4 packets, prefix k in {0,3}, data lengths 1..300) x source kinds {bytes, BytesIO default, "
         "BytesIO r in {1,7,4096}, recording file, short-read file, real file, scripted socket closed by peer, real "
@@ -191,6 +191,56 @@ def _one(ctx, data, k, kind, r, entry, defn, cls, rng, progress):
             os.unlink(tmp)
 
 
+def cli_truncated(ctx, stream):
+    """`spp describe-packets` and `spp parse` on a packet file cut at every offset: one row / one parsed packet per COMPLETE
+    packet, none for the partial tail, exit code 0 (recorders of C19 at the renderer boundary; yield budget on the framer)"""
+    import tempfile
+    from click.testing import CliRunner
+    from space_packet_parser import cli
+    from vmon.props import c19
+    holder = {"rec": c19.Rec(), "budget": 10}
+    c19.install(holder)
+    scratch = tempfile.mkdtemp(prefix="vmon-c10cli-", dir=os.environ.get("VMON_SCRATCH"))
+    defpath = os.path.join(scratch, "def.xml")
+    with open(defpath, "wb") as f:
+        f.write(docs.header_plus_blob_doc())
+    runner = CliRunner()
+    try:
+        for c in range(0, len(stream) + 1):
+            data = stream[:c]
+            n = len(model_frames(data, 0)[0])
+            path = os.path.join(scratch, "cut.bin")
+            with open(path, "wb") as f:
+                f.write(data)
+            for cmd in (["describe-packets", path], ["parse", path, defpath]):
+                holder["rec"] = c19.Rec()
+                holder["budget"] = len(data) // 7 + 2
+                res = monitored(runner.invoke, cli.spp, ["--quiet"] + cmd)
+                ctx.count("evaluations")
+                ctx.count("cli.truncated_runs")
+                r = res.value
+                wit = {"command": cmd[0], "file_len": c, "complete_packets": n}
+                if res.exc is not None or r is None:
+                    continue
+                if isinstance(r.exception, c19.Budget):
+                    ctx.violation(f"cli/{cmd[0]}/nontermination", str(r.exception), wit)
+                elif r.exception is not None or r.exit_code != 0:
+                    ctx.violation(f"cli/{cmd[0]}/crash/{type(r.exception).__name__}", f"exit {r.exit_code}: {r.exception!r}", wit)
+                elif cmd[0] == "describe-packets":
+                    rows = [x for x in holder["rec"].rows if any(ch.isdigit() for cell in x for ch in cell)]
+                    if len(rows) != n and (holder["rec"].rows or holder["rec"].printed):
+                        ctx.violation("cli/describe-packets/lists-incomplete-packet" if len(rows) > n else "cli/describe-packets/misses-packet",
+                                      f"{len(rows)} packet rows for a file holding {n} complete packets (cut at byte {c})", wit)
+                else:
+                    pp = holder["rec"].pprinted
+                    if pp and isinstance(pp[0], list) and len(pp[0]) != n:
+                        ctx.violation("cli/parse/wrong-packet-count", f"{len(pp[0])} parsed packets shown for a file holding {n} complete packets", wit)
+    finally:
+        import shutil
+        shutil.rmtree(scratch, ignore_errors=True)
+        holder["budget"] = 10 ** 12      # the framer wrapper installed for the CLI runs stays in place: make it inert
+
+
 def big_cases(ctx, defn, rng):
     from space_packet_parser import packets as P
     import random
@@ -263,6 +313,9 @@ def run(ctx):
     # ---- large inputs: a maximum-size packet (65536 data octets) between small ones; a stream beyond the framer's 20 MB
     #      buffer-trim threshold. Cut offsets sampled: around every packet border, inside headers, and the complete stream ----
     big_cases(ctx, defn, rng)
+    # ---- the two CLI commands on truncated files: they list / parse complete packets only and terminate ------------------------
+    if ctx.mine(5):
+        cli_truncated(ctx, bases[2][0])
     # ---- empty input on every kind, every entry -------------------------------------------------------------
     for kind, r in kinds:
         for entry in entries:
